@@ -1086,6 +1086,190 @@ def run_c12(inp):
 
 # ----------------------------------------------------------------------------------------
 
+# ----------------------------------------------------------------------------------------
+# mode c04nested: nested layouts -- the derived properties of MutableRef that consult
+# the manager (_expr, _tasks, _find_dependant_targets, _value, _eval) and in-place
+# operators on locations at every level
+# ----------------------------------------------------------------------------------------
+
+def read_path(c, path):
+    """direct read of the container data along a path"""
+    v = c[path[0]]
+    for kind, k in path[1:]:
+        v = v[dec(k)] if kind == "i" else getattr(v, k)
+    return v
+
+
+def own_task(m, ref, obs):
+    """ORACLE: the task registered under exactly this reference (structural
+    comparison of the task ids; independent of MutableRef._expr)"""
+    key = json.dumps(obs.term(ref))
+    for t in m.tasks.values():
+        if json.dumps(obs.term(t.taskid)) == key:
+            return t
+    return None
+
+
+def nested_stmt(m, w, st, obs, assign):
+    """one in-place statement  target op= operand.  Pure part: what __iop__
+    returns; with assign: the whole statement, then the location is read back."""
+    rec = {"oracle": None}
+    tgt = resolve_path(m, st["target"])
+    op = st["op"]
+    operand = build_ref(st["operand"], w)
+    is_ref_operand = isinstance(operand, R.BaseRef)
+    operand_value = outcome(lambda: R.BaseRef._mk_value(operand))
+    old = outcome(tgt._get_value)
+    rec["target_term"] = obs.term(tgt)
+    rec["other_term"] = obs.term(operand)
+    if old[0] != "ok" or operand_value[0] != "ok":
+        rec["skipped"] = "target or operand cannot be read"
+        return rec
+    rec["old"] = canon(old[1])
+    rec["old_lit"] = obs.lit(old[1])
+    own = own_task(m, tgt, obs)
+    rec["own_definition"] = own is not None
+    # ORACLE: the result is built from the location's OWN definition if it has one,
+    # else from its current value -- never from a relative's
+    if own is not None and hasattr(own, "expr"):
+        base = outcome(own.expr._get_value)
+        deferred = True
+    else:
+        base = old
+        deferred = is_ref_operand
+    if base[0] != "ok":
+        rec["skipped"] = "own expression cannot be evaluated"
+        return rec
+    if deferred:
+        want = guard_direct(op, lambda: BINOPS[op](copy.deepcopy(base[1]), operand_value[1]))
+    else:
+        want = outcome(lambda: BINOPS[op](copy.deepcopy(base[1]), operand_value[1]))
+    problems = []
+    try:
+        f = getattr(type(tgt), IDUNDER[op], None)
+        res = f(tgt, operand) if f is not None else BINOPS[op](tgt, operand)
+        if isinstance(res, R.BaseRef):
+            rec["returned"] = ["expr", obs.term(res)]
+            got = outcome(res._get_value)
+            if not deferred:
+                problems.append(f"{tgt} {op}= plain operand on a location without a definition of its own returned the expression {obs.term(res)} instead of a value")
+        else:
+            rec["returned"] = ["val", canon(res)]
+            got = ("ok", res)
+            if deferred:
+                problems.append(f"{tgt} {op}= returned a plain value although the result must be an expression")
+    except RecursionError:
+        raise
+    except Exception as ex:
+        rec["returned"] = ["val", canon_exc(ex)]
+        got = ("exc", type(ex).__name__)
+    if not problems and not same_outcome(want, got):
+        problems.append(f"{tgt} {op}= : expected {show(want)} (from its own {'definition' if own is not None else 'value'}), got {show(got)}")
+    if assign and not problems:
+        parent0 = None
+        if len(st["target"]) > 1:
+            try:
+                parent = read_path(w.c, st["target"][:-1])
+                if isinstance(parent, np.ndarray):
+                    parent0 = parent.copy()
+            except Exception:
+                pass
+        try:
+            m.set_value(tgt, IOPS[op](tgt, operand))
+            after = outcome(lambda: read_path(w.c, st["target"]))
+        except RecursionError:
+            raise
+        except Exception as ex:
+            after = ("exc", type(ex).__name__)
+        rec["assigned"] = show(after)
+        if want[0] == "ok" and parent0 is not None:
+            # an element stored into a numpy array: what numpy makes of that value (dtype
+            # conversion, or its refusal) is numpy's business -- replay the store on a copy
+            key = dec(st["target"][-1][1])
+
+            def store():
+                parent0[key] = want[1]
+                return parent0[key]
+            want = outcome(store)
+        if not same_outcome(want, after):
+            problems.append(f"after {tgt} {op}= ... the location holds {show(after)}, expected {show(want)}")
+    rec["oracle"] = problems or None
+    return rec
+
+
+def run_c04_nested(inp):
+    obs = Observer(inp["classes"], inp["fns"])
+    out = []
+    for case in inp["cases"]:
+        w = World(case["state"], case.get("objattr", ()))
+        m = w.m
+        rec = {"oracle": None}
+        try:
+            for d in case["defs"]:
+                m.set_value(resolve_path(m, d["target"]), build_ref(d["pexp"], w))
+        except RecursionError:
+            raise
+        except Exception as ex:
+            out.append({"setup_error": f"{type(ex).__name__}: {ex}"})
+            continue
+        problems = []
+        rec["tasks"] = [[obs.term(t.taskid), obs.term(t.expr)] for t in m.tasks.values() if hasattr(t, "expr")]
+        probes = []
+        for path in case["probes"]:
+            try:
+                ref = resolve_path(m, path)
+                pr = {"ref": obs.term(ref)}
+                ex = ref._expr
+                pr["expr"] = None if ex is None else obs.term(ex)
+                own = own_task(m, ref, obs)
+                if (ex is None) != (own is None) or (ex is not None and obs.term(ex) != obs.term(own.expr)):
+                    problems.append(f"{ref}._expr is {pr['expr']} but the task registered under that reference is "
+                                    f"{None if own is None else obs.term(own.expr)}")
+                pr["tasks"] = [obs.term(t) for t in ref._tasks]
+                pr["dependants"] = [obs.term(t) for t in ref._find_dependant_targets()]
+                gv = outcome(ref._get_value)
+                pv = outcome(lambda: ref._value)
+                dv = outcome(lambda: read_path(w.c, path))
+                if gv[0] == "exc" and gv[1] == "AttributeError":
+                    gv = ("exc", "LookupError")
+                if not same_outcome(gv, pv):
+                    problems.append(f"{ref}._value = {show(pv)} but _get_value() = {show(gv)}")
+                if dv[0] == "ok" and not same_outcome(dv, pv):
+                    problems.append(f"{ref}._value = {show(pv)} but the container holds {show(dv)}")
+                probes.append(pr)
+            except RecursionError:
+                raise
+            except Exception as ex:
+                probes.append({"error": f"{type(ex).__name__}: {ex}"})
+        rec["probes"] = probes
+        evals = []
+        for ev in case.get("evals", []):
+            try:
+                at = resolve_path(m, ev["at"])
+                got = at._eval(ev["text"])
+                want = build_ref(ev["pexp"], w)
+                evals.append(obs.term(got))
+                if obs.term(got) != obs.term(want):
+                    problems.append(f"{at}._eval({ev['text']!r}) built {obs.term(got)}, the operators build {obs.term(want)}")
+            except RecursionError:
+                raise
+            except Exception as ex:
+                evals.append(None)
+                problems.append(f"_eval({ev['text']!r}) raised {type(ex).__name__}: {ex}")
+        rec["evals"] = evals
+        stmts = []
+        n = len(case["stmts"])
+        for i, st in enumerate(case["stmts"]):
+            r = nested_stmt(m, w, st, obs, assign=(case.get("assign_last") and i == n - 1))
+            if r.get("oracle"):
+                problems += r["oracle"]
+            stmts.append(r)
+        rec["stmts"] = stmts
+        rec["oracle"] = problems or None
+        out.append(rec)
+    return {"results": out, "unknown": sorted(obs.unknown)}
+
+
 def run_info(inp):
     subs = {}
     for n in dir(R):
@@ -1110,6 +1294,8 @@ def main():
             res = {"why": run_sweep_case(inp["case"])}
         except RecursionError:
             res = {"why": {"error": "RecursionError"}}
+    elif mode == "c04nested":
+        res = run_c04_nested(inp)
     elif mode == "c05":
         res = run_c05(inp)
     elif mode == "c12":
